@@ -314,6 +314,55 @@ def builder_chains(fn):
     return out
 
 
+def localised_inherit(ctx):
+    """make_localised_space(space): the element-local companion every assembler integrates on.  It must carry the space's
+    own geometry-side tables (support, normal multipliers, shapeset, evaluators ...) and the identity dof map."""
+    SPC = "bempp_cl/api/space/space.py"
+    r = ctx.rule("LOCALISED-INHERIT", "the localised space (what dense / potential assemblers integrate on) has the parent's grid, codomain dimension, support, normal multipliers, order, shapeset, evaluator, surface gradient / curl and barycentric flag, "
+                 "and the identity dof map with unit multipliers on the support", 3)
+    fn = ctx.repo.mod(SPC).fn("make_localised_space")
+    S = arg_names(fn)[0]
+    cs = builder_chains(fn)
+    if len(cs) != 1:
+        raise AnalysisError("make_localised_space: no single SpaceBuilder chain")
+    g, d, node = cs[0]
+    defs = roles.Defs(fn)
+    ex = lambda src: roles.expect(src, defs, node.lineno, lv=False, S=S)
+    can = lambda n: roles.canon(n, defs).replace(" ", "") if n is not None else None
+    want = {
+        "set_codomain_dimension": ["S.codomain_dimension"], "set_support": ["S.support"], "set_normal_multipliers": ["S.normal_multipliers"], "set_order": ["S.order"],
+        "set_shapeset": ["S.shapeset.identifier"], "set_is_localised": ["True"], "set_numba_evaluator": ["S.numba_evaluate"], "set_is_barycentric": ["S.is_barycentric"],
+        "set_numba_surface_gradient": ["S.numba_surface_gradient if S.has_surface_gradient else None", "S.numba_surface_gradient"],
+        "set_numba_surface_curl": ["S.numba_surface_curl if S.has_surface_curl else None", "S.numba_surface_curl"],
+    }
+    bad = []
+    if can(g) != ex("S.grid"):
+        bad.append("built on `%s`, expected the parent's grid" % can(g))
+    for setter, alts in want.items():
+        if setter not in d:
+            bad.append("%s is not set: the builder's default (%s) replaces the parent's value" % (setter[4:], "all normal multipliers 1" if setter == "set_normal_multipliers" else "default"))
+        elif can(d[setter]) not in [ex(a) for a in alts]:
+            bad.append("%s is `%s`, expected `%s`" % (setter[4:], (can(d[setter]) or "")[:70], alts[0].replace("S.", S + ".")))
+    r.check(not bad, "inherited tables", SPC, fn.name, node.lineno, "localised space inherits the parent's tables", "; ".join(bad))
+    # identity dof map on the support
+    St = roles.stores(fn.body, defs, lv=False)
+    n_loc, n_sup = "S.number_of_shape_functions", "S.number_of_support_elements"
+    ident = {ex("_np.arange(%s * %s).reshape((%s, %s))" % (n_loc, n_sup, n_sup, n_loc)), ex("_np.arange(%s * %s).reshape((%s, %s))" % (n_sup, n_loc, n_sup, n_loc)),
+             ex("_np.arange(%s * %s).reshape(%s, %s)" % (n_loc, n_sup, n_sup, n_loc))}
+    for setter, val_ok, what in (("set_local2global", lambda v: v in ident, "arange(shape functions x support elements) reshaped (support elements, shape functions)"), ("set_local_multipliers", lambda v: v in ("1", "1.0"), "1")):
+        arr = d.get(setter)
+        ok, why = False, "%s is not a local array" % setter[4:]
+        if isinstance(arr, ast.Name):
+            alloc = [s for s in St if s.op == "=" and s.target == arr.id and not s.loops and not s.guards]
+            fills = [s for s in St if isinstance(s.tnode, ast.Subscript) and unparse(s.tnode.value) == arr.id]
+            shape_ok = len(alloc) == 1 and isinstance(alloc[0].vnode, ast.Call) and unparse(alloc[0].vnode.func).split(".")[-1] == "zeros" and alloc[0].vnode.args \
+                and can(alloc[0].vnode.args[0]) == ex("(S.grid.number_of_elements, %s)" % n_loc)
+            fill_ok = len(fills) == 1 and fills[0].op == "=" and not fills[0].loops and not fills[0].guards and can(fills[0].tnode.slice) == ex("S.support") and val_ok(fills[0].value)
+            ok = bool(shape_ok and fill_ok)
+            why = "allocated zeros((elements, shape functions)): %s; rows of the support set to %s: %s (found %s)" % (bool(shape_ok), what, bool(fill_ok), [(s.target[-40:], s.value[:80]) for s in fills])
+        r.check(ok, setter[4:], SPC, fn.name, node.lineno, "localised %s" % setter[4:], why)
+
+
 # what each returned local of a dof-map builder is, by its name (the builders return bare tuples)
 _ROLE_WORDS = (("local2global", "set_local2global"), ("multipliers", "set_local_multipliers"), ("support", "set_support"))
 
